@@ -40,6 +40,9 @@ func (f fault) String() string {
 	if f.kind == "storm" {
 		return fmt.Sprintf("storm/%s/%d-sessions", f.transport, f.cut)
 	}
+	if f.kind == "bigbatch" {
+		return fmt.Sprintf("bigbatch/%s/%d-operations", f.transport, f.cut)
+	}
 	if f.kind == "get" {
 		return fmt.Sprintf("get/%s/%s/after-%d-of-%d", f.transport, f.mode, f.cut, f.entries)
 	}
@@ -105,6 +108,11 @@ func cases(run *ev.Run) []caseSpec {
 	nStorm := run.Pick(12, 300)
 	for i := 0; i < nStorm; i++ {
 		out = append(out, caseSpec{id: fmt.Sprintf("storm-%d", i), faults: []fault{{kind: "storm", transport: []string{"direct", "grpc"}[i%2], mode: "mixed", cut: 40 + 20*(i%4)}}, tie: []bool{i%2 == 0}})
+	}
+	// a very large batch abandoned after its first answer, and a new primary that flushes at once
+	nBig := run.Pick(6, 120)
+	for i := 0; i < nBig; i++ {
+		out = append(out, caseSpec{id: fmt.Sprintf("bigbatch-%d", i), faults: []fault{{kind: "bigbatch", transport: []string{"direct", "grpc"}[i%2], mode: "cancel", cut: 3000 + 1000*(i%4)}}, tie: []bool{i%2 == 1}})
 	}
 	// the server as deployed (device.New: TCP + TLS), see deviceCase
 	nDev := run.Pick(8, 120)
@@ -187,7 +195,7 @@ func TestCheck(t *testing.T) {
 		}
 	})
 	run.Assume("a message the client sent but whose answer it did not read may or may not have been processed when the client is cancelled or its transport killed over gRPC (any prefix of the unacknowledged messages is accepted); after a half-close, and on direct streams, everything sent was received and must have been processed")
-	run.Finish("fault enumeration: a 5-message Modify script (params, election, three batches incl. a held operation that resolves) cut after each of its 14 send/read steps x {direct: half-close, cancel; gRPC: half-close, cancel, transport kill}; a Get(ALL) over an instance holding 2/5/40/200 entries spread over all five tables, cut after 1..6, n-1, n and inside every table's section x {direct: Send fails; gRPC: cancel, transport kill}; plus seeded sequences of 2-4 such faults on one server; plus disconnect storms (40-100 negotiated sessions cut off one after the other in all modes while fresh sessions keep negotiating, the server's yield points around the session table perturbed); plus the server as it is deployed - device.New on a real TCP socket with TLS - hit by TCP connections that never complete the handshake, 20-60 abandoned Modify sessions and 5-25 abandoned Gets before the probe connects. After every fault: contents and highest id/primary vs the model (hooks), then a bounded-progress probe - a new session negotiates, announces max+1 or (every other probe) the very id that is the maximum, adds a next-hop plus the next-hop the cut-off session's held operations were waiting for, reads back with Get exactly what the model predicts (nothing of the departed session may surface, no foreign result on the probe's stream), flushes - each step under a watchdog; a watchdog firing is a violation only if two goroutine dumps prove the server permanently blocked. Distinct = by fault case", 50, false)
+	run.Finish("fault enumeration: a 5-message Modify script (params, election, three batches incl. a held operation that resolves) cut after each of its 14 send/read steps x {direct: half-close, cancel; gRPC: half-close, cancel, transport kill}; a Get(ALL) over an instance holding 2/5/40/200 entries spread over all five tables, cut after 1..6, n-1, n and inside every table's section x {direct: Send fails; gRPC: cancel, transport kill}; plus seeded sequences of 2-4 such faults on one server; plus disconnect storms (40-100 negotiated sessions cut off one after the other in all modes while fresh sessions keep negotiating, the server's yield points around the session table perturbed); plus very large batches (3000-6000 operations in one request) abandoned after their first answer with the next primary flushing at once (at most a handful of operations in progress may land afterwards); plus the server as it is deployed - device.New on a real TCP socket with TLS - hit by TCP connections that never complete the handshake, 20-60 abandoned Modify sessions and 5-25 abandoned Gets before the probe connects. After every fault: contents and highest id/primary vs the model (hooks), then a bounded-progress probe - a new session negotiates, announces max+1 or (every other probe) the very id that is the maximum, adds a next-hop plus the next-hop the cut-off session's held operations were waiting for, reads back with Get exactly what the model predicts (nothing of the departed session may surface, no foreign result on the probe's stream), flushes - each step under a watchdog; a watchdog firing is a violation only if two goroutine dumps prove the server permanently blocked. Distinct = by fault case", 50, false)
 }
 
 // ---------------------------------------------------------------- child side
@@ -412,6 +420,12 @@ func (w *world) modifyFault(f fault) ([]candidate, string) {
 // getFault floods one NI with entries of all five tables, then abandons a Get(ALL) part-way.
 func (w *world) getFault(f fault) string {
 	ni := "VRF2"
+	allNIs := f.cut%2 == 0
+	if allNIs {
+		// a Get of ALL instances abandoned while the first of them (in the server's order) is
+		// being written: the instances behind it must not be left locked
+		ni = "DEFAULT"
+	}
 	add := func(s gen.OpSpec) string {
 		if oks, fails, err := mon.Apply(w.srv.VerifRIB(), s); err != nil || len(fails) > 0 || len(oks) == 0 {
 			return fmt.Sprintf("HARNESS: cannot install %s: %v %v %v", s, oks, fails, err)
@@ -445,6 +459,9 @@ func (w *world) getFault(f fault) string {
 		}
 	}
 	req := &spb.GetRequest{NetworkInstance: &spb.GetRequest_Name{Name: ni}, Aft: spb.AFTType_ALL}
+	if allNIs {
+		req.NetworkInstance = &spb.GetRequest_All{All: &spb.Empty{}}
+	}
 	var got []*spb.GetResponse
 	var err, wd error
 	switch f.transport {
@@ -458,6 +475,113 @@ func (w *world) getFault(f fault) string {
 		return "WATCHDOG abandoned Get did not return"
 	}
 	return ""
+}
+
+// bigBatchFault: the primary sends ONE request with thousands of operations, reads the first
+// answer and is cancelled. At once - not waiting for the server to calm down - another
+// session wins the election and flushes everything. Once the server is quiescent, nothing
+// of the abandoned batch may be installed beyond the handful of operations that were in progress
+// when the RPC ended (9.4): the rest of a batch is not applied on behalf of a session
+// that no longer exists, least of all after the next primary has flushed.
+func (w *world) bigBatchFault(f fault) (probs []string, harness string) {
+	var st drv.Stream
+	var direct *drv.ModStream
+	var g *drv.GRPCModStream
+	if f.transport == "direct" {
+		direct = drv.OpenModify(w.srv)
+		st = direct
+	} else {
+		var err error
+		if g, err = w.gs.OpenModify(); err != nil {
+			return nil, "HARNESS: " + err.Error()
+		}
+		st = g
+	}
+	s := &drv.Session{Stream: st, Name: "bulk", DefaultNI: "DEFAULT"}
+	if _, err := s.Params(drv.SinglePrimary(false)); err != nil {
+		return nil, "bulk session negotiation: " + err.Error()
+	}
+	elec := inc(w.max)
+	if _, err := s.Elect(elec); err != nil {
+		return nil, "bulk session election: " + err.Error()
+	}
+	w.max = elec
+	w.m.DropHeld()
+	var ops []*spb.AFTOperation
+	for k := 0; k < f.cut; k++ {
+		o := mkNH(w.nextOp, "VRF1", uint64(100000+k))
+		w.nextOp++
+		o.Op.ElectionId = elec
+		ops = append(ops, o.Op)
+	}
+	if !st.Write(&spb.ModifyRequest{Operation: ops}) {
+		return nil, "the stream did not take the large request"
+	}
+	if _, err := st.Read(); err != nil {
+		return nil, fmt.Sprintf("first answer of the large request: %v", err)
+	}
+	if direct != nil {
+		direct.Abort(status.Error(codes.Canceled, "context canceled"))
+	} else {
+		g.Cancel()
+		g.Close()
+	}
+	// the next primary, at once
+	ns := &drv.Session{Stream: drv.OpenModify(w.srv), Name: "next-primary", DefaultNI: "DEFAULT"}
+	for attempt := 0; ; attempt++ {
+		_, err := ns.Params(drv.SinglePrimary(false))
+		if err == nil {
+			break
+		}
+		if err == drv.ErrWatchdog {
+			return nil, "WATCHDOG negotiation of the next primary after an abandoned large batch"
+		}
+		if attempt > 200 || status.Code(err) != codes.FailedPrecondition {
+			return []string{fmt.Sprintf("probe-negotiation-rejected|after an abandoned batch of %d operations: %v", f.cut, err)}, ""
+		}
+		time.Sleep(500 * time.Microsecond)
+		ns = &drv.Session{Stream: drv.OpenModify(w.srv), Name: "next-primary", DefaultNI: "DEFAULT"}
+	}
+	id := inc(w.max)
+	if rep, err := ns.Elect(id); err != nil || rep.GetHigh() != id.High || rep.GetLow() != id.Low {
+		if err == drv.ErrWatchdog {
+			return nil, "WATCHDOG election of the next primary after an abandoned large batch"
+		}
+		return []string{fmt.Sprintf("probe-election-not-won|after an abandoned batch: announced %s, got %v %v", mon.IDStr(id), rep, err)}, ""
+	}
+	w.max = id
+	if _, ferr, wd := drv.Flush(w.srv, &spb.FlushRequest{NetworkInstance: &spb.FlushRequest_All{All: &spb.Empty{}}, Election: &spb.FlushRequest_Id{Id: id}}); wd != nil {
+		return nil, "WATCHDOG Flush by the next primary after an abandoned large batch"
+	} else if ferr != nil {
+		return []string{fmt.Sprintf("probe-flush-failed|after an abandoned batch: %v", ferr)}, ""
+	}
+	w.m.Flush([]string{"DEFAULT", "VRF1", "VRF2"})
+	ns.CloseSend()
+	if !mon.WaitQuiescent(drv.Watchdog) {
+		return nil, "WATCHDOG server did not become quiescent after an abandoned large batch"
+	}
+	got, e := w.implContents()
+	if e == "WATCHDOG" {
+		return nil, "WATCHDOG Get after an abandoned large batch"
+	}
+	if e != "" {
+		return []string{"probe-get-error|" + e}, ""
+	}
+	left := 0
+	for _, m := range got {
+		left += len(m)
+	}
+	w.logf("fault %s: one request of %d operations abandoned after its first answer; the next primary flushed at once; %d entries installed at quiescence", f, f.cut, left)
+	// (the operation in progress, and one or two whose results the stream's writer still took
+	// over before it stopped, may land after the RPC has ended - a handful, not the batch)
+	if left > 8 {
+		probs = append(probs, fmt.Sprintf("state-after-disconnect:abandoned-batch-applied-after-the-rpc|a request of %d operations was abandoned after its first answer and the next primary flushed everything at once, yet %d entries of the abandoned batch are installed when the server has become quiescent", f.cut, left))
+	}
+	// whatever little was applied late is cleared for the checks that follow
+	if left > 0 {
+		drv.Flush(w.srv, &spb.FlushRequest{NetworkInstance: &spb.FlushRequest_All{All: &spb.Empty{}}, Election: &spb.FlushRequest_Id{Id: id}})
+	}
+	return probs, ""
 }
 
 // stormFault: f.cut sessions negotiate (sequentially, so that all of them are admitted),
@@ -837,6 +961,15 @@ func TestChild(t *testing.T) {
 					}
 					probs = append(probs, fmt.Sprintf("%s|after %s the server state matches none of the %d acceptable states; vs all-processed: %v; highest id %s (acceptable up to %s)", sig, label, len(cands), d, mon.IDStr(eid), mon.IDStr(last.max)))
 				}
+			case "bigbatch":
+				p, e := w.bigBatchFault(f)
+				probs = append(probs, p...)
+				if strings.HasPrefix(e, "WATCHDOG") {
+					inconcl = e
+				} else if e != "" {
+					probs = append(probs, "HARNESS|"+e)
+				}
+				nCompares++
 			case "storm":
 				e := w.stormFault(f, int64(len(c.id))+sp.Seed)
 				if strings.HasPrefix(e, "WATCHDOG") {
